@@ -12,11 +12,13 @@ pub struct Cov {
     pub ops: u64,
     pub max_pos: u64,
     pub samples: Vec<String>,
+    /// auxiliary per-run value (C18: hash of the isolated transcripts)
+    pub aux: u64,
 }
 
 impl Cov {
     pub fn new() -> Cov {
-        Cov { counters: BTreeMap::new(), sig: Fnv::new().0, nontrivial: false, events: 0, ops: 0, max_pos: 0, samples: Vec::new() }
+        Cov { counters: BTreeMap::new(), sig: Fnv::new().0, nontrivial: false, events: 0, ops: 0, max_pos: 0, samples: Vec::new(), aux: 0 }
     }
     pub fn hit(&mut self, k: &str) {
         self.hit_n(k, 1)
